@@ -166,9 +166,15 @@ class Scan:
         if typ is not None:
             opts += [b"TYPE", typ]
         trace = []
+        # one iteration in seven is driven from inside scripts (redis.call of the same command with the same options)
+        via_script = self.rng.random() < 0.15 and (count is None or count <= 10 ** 6)
+        self.via_script = via_script
         while True:
             argv = [kind.encode()] + ([] if kind == "SCAN" else [self.container]) + [cursor] + opts
-            r = self.c.cmd(*argv)
+            if via_script:
+                r = self.c.cmd(b"EVAL", b"return redis.call(unpack(ARGV))", b"0", *argv)
+            else:
+                r = self.c.cmd(*argv)
             calls += 1
             self.res.evaluations += 1
             if isinstance(r, Err):
@@ -262,6 +268,8 @@ def worker(wseed, binary, budget_s):
             sizeclass = "n0" if n == 0 else "n<=30" if n <= 30 else "n<=200" if n <= 200 else "big"
             cclass = "default" if count is None else "c1" if count == 1 else "c<n" if count < max(n, 1) else "c>=n"
             res.cell(kind, move, sizeclass, cclass, "match" if pattern else "nomatch", "type" if typ else "notype", out)
+            if getattr(sc, "via_script", False):
+                res.cell(kind, "via-script", "match" if pattern else "nomatch", "type" if typ else "notype", out)
             if out not in ("ok", "refused-count"):
                 res.violation("%s/%s/%s" % (out, kind, move), info, {"kind": kind, "n": n, "move": move, "count": count,
                                                                     "pattern": resp.jsonable(pattern), "seed": wseed, "iteration": it})
